@@ -204,7 +204,7 @@ int main(int argc, char** argv) {
                     const double krTop = OWLaw::twoPhaseSatKrn(N.real(c).oilWaterParams(), swl);
                     const bool plateau = OWLaw::twoPhaseSatKrn(N.real(c).oilWaterParams(), swmin) >= krTop - 1e-12;
                     const std::string tagO = plateau ? "hyst.kro@plateau" : "hyst.kro";
-                    double atrev = 0.0, prev = 0.0;
+                    double atrev = 0.0, prev = 0.0, startNow = 0.0;
                     bool mono = true;
                     for (std::size_t i = 0; i < path.size(); ++i) {
                         P.update(c, path[i], 0.0);
@@ -215,14 +215,15 @@ int main(int argc, char** argv) {
                                       {"krow2p", sc(OWLaw::twoPhaseSatKrn(N.real(c).oilWaterParams(), path[i]), 1.0)}});
                             same("hyst.krw", c, h[0], n[0], 1.0);
                         }
-                        if (i == nd - 1) { atrev = h[1]; prev = h[1]; }
+                        if (i == nd - 1) { atrev = h[1]; prev = h[1]; startNow = P.eval(c, path[i] + 1e-7, 0.0)[1]; }
                         if (i >= nd) { if (h[1] > prev + 1e-9) mono = false; prev = h[1]; }
                     }
                     if (hyst == "other") {
                         const double start = P.eval(c, swmin + 1e-9, 0.0)[1];
                         // (the state at this point has seen the whole imbibition path; the scanning curve through the
                         // reversal point is kept, so its value there is still the value at the reversal)
-                        TR->emit({{"e", "Scan"}, {"fn", "kro"}, {"cell", c}, {"start", sc(start, 1.0)}, {"atrev", sc(atrev, 1.0)}, {"monotone", mono}});
+                        // (three-point scaling with explicit end-points: see the known finding on the Carlson shift)
+                        TR->emit({{"e", "Scan"}, {"fn", (scaling == "three" && !arrays.is_null()) ? "kro@3pt-arrays" : "kro"}, {"cell", c}, {"start", sc(start, 1.0)}, {"startNow", sc(startNow, 1.0)}, {"atrev", sc(atrev, 1.0)}, {"monotone", mono}});
                     }
                 }
             }
